@@ -8,6 +8,7 @@ import (
 	"reflect"
 	"strconv"
 	"strings"
+	"unicode"
 )
 
 var imports []string
@@ -423,8 +424,9 @@ func (s *JavaFullListener) EnterCreator(ctx *parser.CreatorContext) {
 
 	for _, identifier := range allIdentifiers {
 		createdName := identifier.GetText()
-		// an assignment gives a type only to a name that has no declaration of its own
-		if localVars[variableName] == "" && formalParameters[variableName] == "" && mapFields[variableName] == "" {
+		// an assignment gives a type only to a name that has no declaration of its own; the text to the left of a
+		// creation that is an argument or an operand is an expression (e.g. "get()"), not a name
+		if isPlainName(variableName) && localVars[variableName] == "" && formalParameters[variableName] == "" && mapFields[variableName] == "" {
 			localVars[variableName] = createdName
 		}
 
@@ -459,6 +461,19 @@ func (s *JavaFullListener) EnterCreator(ctx *parser.CreatorContext) {
 
 		currentCreatorNode = *creatorNode
 	}
+}
+
+// isPlainName reports whether text is an identifier, optionally qualified (a, this.a)
+func isPlainName(text string) bool {
+	if text == "" {
+		return false
+	}
+	for _, r := range text {
+		if !(r == '_' || r == '$' || r == '.' || unicode.IsLetter(r) || unicode.IsDigit(r)) {
+			return false
+		}
+	}
+	return true
 }
 
 func (s *JavaFullListener) ExitCreator(ctx *parser.CreatorContext) {
